@@ -372,9 +372,20 @@ def stats (w : Bool) (lens : List Nat) (tree : List String) (bs : Bytes) : Strin
       match evalTree (parts.map fun p => collectInfo (p.getD [])) tree [] with
       | some i => pInfo i
       | none => "BADTREE"
-  let spec := match visit w bs with
-    | some sts => pInfo (specInfo sts) ++ s!" n={sts.length}"
-    | none => "ERR"
+  -- the property speaks of parts cut at message boundaries: the ends of the parts must be
+  -- ends of pieces of the Spec's cut of the whole stream (else nothing is expected: "na")
+  let ends := ((Spec.cut w bs).foldl (fun (acc : List Nat × Nat) p =>
+      match p with
+      | .msg b => (acc.1 ++ [acc.2 + b.length], acc.2 + b.length)
+      | .badLen => (acc.1, acc.2 + (if w then 20 else 4))
+      | .truncated => acc) ([0], 0)).1
+  let partEnds := (lens.foldl (fun (acc : List Nat × Nat) l => (acc.1 ++ [acc.2 + l], acc.2 + l)) ([], 0)).1
+  let aligned := partEnds.all fun e => ends.contains e
+  let spec :=
+    if !aligned then "na"
+    else match visit w bs with
+      | some sts => pInfo (specInfo sts) ++ s!" n={sts.length}"
+      | none => "ERR"
   model ++ " @@ spec=" ++ spec
 
 /-- C09: unfiltered parse vs filtered parse; the Spec decides from the numeric config -/
